@@ -114,6 +114,60 @@ def one(args):
         shutil.rmtree(W, ignore_errors=True)
 
 
+def model_one(args):
+    """one file set of the Include machine (Names -> Seq(Item)) as real files; the root through the command line tool"""
+    k, fs = args
+    W = tempfile.mkdtemp(prefix="c19m", dir=os.environ.get("VERIF_SCRATCH"))
+    cwd = os.getcwd()
+    try:
+        for n, items in fs.items():
+            open(os.path.join(W, n + ".asm"), "w").write("".join(" FCB %d\n" % x["v"] if x["k"] == "s" else " INCLUDE %s.asm\n" % x["inc"] for x in items))
+        os.chdir(W)
+        assembler = hostrun.import_cli("assembler")
+        code, out = hostrun.run_main(assembler, ["a.asm", "--to_bin", "m.bin"])
+        has = os.path.exists("m.bin")
+        return {"id": k, "root": "a", "files": fs, "exit": code, "tb": "TRACEBACK" in out or "Traceback" in out, "hasbin": has,
+                "bin": list(open("m.bin", "rb").read()) if has else [], "msg": len(out.strip()) > 0, "stdout": out[-200:]}
+    finally:
+        os.chdir(cwd)
+        shutil.rmtree(W, ignore_errors=True)
+
+
+def model_suite(ctx, rnd, thorough):
+    """Spec -> code -> spec: the initial states of MC_Include (every assignment of contents to the three files: empty files, files that only include, an
+    include right after an include of an empty file, the same file twice, cycles through 1-3 files, the missing file at any place) written as real
+    files; Tr_Include evaluates Include!Splice on the same file set and compares it with what the assembler saved."""
+    import itertools
+    t0 = time.time()
+    conts, r = tlc.export("Gen_Include")
+    conts = [c["items"] for c in conts]
+    names = ["a", "b", "c"]
+    space = len(conts) ** len(names)
+    if thorough:
+        picks = itertools.product(range(len(conts)), repeat=3)
+    else:
+        picks = set()
+        while len(picks) < 6000:
+            picks.add(tuple(rnd.randrange(len(conts)) for _ in names))
+        picks = sorted(picks)
+    jobs = [(k, {n: conts[i] for n, i in zip(names, pk)}) for k, pk in enumerate(picks)]
+    os.environ["VERIF_SCRATCH"] = tlc.OUT
+    with mp.Pool(16) as pool:
+        recs = pool.map(model_one, jobs, chunksize=50)
+    verd, st = tlc.bulk("Tr_Include", [{k: v for k, v in x.items() if k != "stdout"} for x in recs], nproc=6, heap="3g")
+    nv = 0
+    for x in recs:
+        v = verd[x["id"]]
+        shape = "".join("e" if not x["files"][n] else "".join(i["k"] for i in x["files"][n]) + "." for n in names)
+        ctx.add_class("incmodel|%s|%s|%d" % (shape, v["bad"], v["n"]))
+        for c in v["failed"]:
+            item = {"clause": "model-" + c, "class": {"mode": "model", "spec_rejects": v["bad"], "spliced_len": v["n"]}, "symptom": {"exit": x["exit"]}}
+            if ctx.report(item, {"kind": "include-model", "files": {n + ".asm": [" FCB %d" % i["v"] if i["k"] == "s" else " INCLUDE %s.asm" % i["inc"] for i in x["files"][n]] for n in names},
+                                 "root": "a.asm", "exit": x["exit"], "bin": x["bin"], "stdout": x["stdout"]}) == "violation":
+                nv += 1
+    ctx.add_suite("model-file-sets", len(recs), len(recs), time.time() - t0, {"violating_items": nv, "file_sets_in_model": space})
+
+
 def run(ctx):
     thorough = ctx.tier == "thorough"
     rnd = random.Random(ctx.seed * 1190494759 + 19)
@@ -148,10 +202,12 @@ def run(ctx):
                 nv += 1
     ctx.add_suite("include-trees", len(ts), len(ts), time.time() - t0, {"violating_items": nv})
     ctx.sample({"main": ts[0]["linesA"], "files": ts[0]["files"]})
+    model_suite(ctx, rnd, thorough)
     ctx.cov["rule"] = ("random programs (forward / backward references, branches, PCR operands) split into an including file and 1-3 included files, nested to depth 3, and at "
                        "every single boundary pair; missing files; inclusion cycles of length 1-3; files materialised in a temp dir, assembled with the working directory there "
                        "(every 25th also through assembler.py), versus the spliced single file; judged by TLC with Session!IncludeEquiv (image, listing addresses, bytes, symbol "
-                       "table), missing / cyclic => diagnostic. distinct_nontrivial = (mode, outcome, files) classes")
+                       "table), missing / cyclic => diagnostic; plus the file sets of the model itself (MC_Include's initial states: 3 files x <= 2 items over 2 statements, includes of the 3 files and of a missing file - 79,507 "
+                       "sets, all in the thorough tier, 6,000 sampled in the quick tier) written as real files, assembled through assembler.py and judged by Tr_Include against Include!Splice. distinct_nontrivial = (mode, outcome, files) classes")
 
 
 def replay(ctx, rp):
